@@ -488,7 +488,8 @@ impl Ctx {
         });
         let dir = format!("{VERIF_ROOT}/evidence");
         let _ = std::fs::create_dir_all(&dir);
-        let path = format!("{dir}/{}.json", self.prop);
+        let suffix = std::env::var("VH_EVIDENCE_SUFFIX").unwrap_or_default();
+        let path = format!("{dir}/{}{suffix}.json", self.prop);
         let _ = std::fs::write(&path, serde_json::to_string_pretty(&ev).unwrap());
         if code == 0 && !inconc.is_empty() {
             println!("INCONCLUSIVE property={} ({} case(s)): {}", self.prop, inconc.len(), inconc[0]);
